@@ -148,14 +148,11 @@ def renamePhase : Tree → List (Path × Path) → List Ren → Result
       | (t', some e') => { outcome := .rollbackFailed e', tree := t', performed := perf }
 
 /-- where `generate_reverse_patches` looks for an edited file after the renames:
-    an exact entry, else the FIRST recorded rename whose source is a prefix -/
+    an exact entry, else the LAST recorded rename whose source is a prefix (the deepest directory) -/
 def currentPath (performed : List (Path × Path)) (f : Path) : Path :=
   match performed.find? (fun pr => pr.1 == f) with
   | some pr => pr.2
-  | none =>
-    match performed.find? (fun pr => pre pr.1 f) with
-    | some pr => pr.2 ++ f.drop pr.1.length
-    | none => f
+  | none => performed.foldl (fun cur pr => if pre pr.1 f then pr.2 ++ f.drop pr.1.length else cur) f
 
 def readable (t : Tree) (p : Path) : Bool :=
   match lookup t p with
